@@ -135,7 +135,7 @@ class Program:
                 except SyntaxError as e:
                     raise AnalysisError(f"{name}: syntax error {e}")
                 self.modules[name] = ModuleInfo(name, _normalise(tree), src)
-        from .inline import expand_star_calls, close_partials, expand_dispatch_tables, expand_value_lookups, expand_helper_comprehensions, propagate_record_fields, fold_unpack_temporaries, inline_unknown_helpers, propagate_attribute_aliases, unroll_literal_loops
+        from .inline import fold_keyword_dicts, expand_star_calls, close_partials, expand_dispatch_tables, expand_value_lookups, expand_helper_comprehensions, propagate_record_fields, fold_unpack_temporaries, inline_unknown_helpers, propagate_attribute_aliases, unroll_literal_loops
 
         self.star_calls = expand_star_calls({name: m.tree for name, m in self.modules.items()})
         self.folded_unpacks = fold_unpack_temporaries({name: m.tree for name, m in self.modules.items()})
@@ -145,6 +145,7 @@ class Program:
         self.closed_partials = close_partials({name: m.tree for name, m in self.modules.items()})
         self.expanded_comprehensions = expand_helper_comprehensions({name: m.tree for name, m in self.modules.items()})
         self.inlined_calls = inline_unknown_helpers({name: m.tree for name, m in self.modules.items()})
+        self.keyword_dicts = fold_keyword_dicts({name: m.tree for name, m in self.modules.items()})
         self.resolved_records = propagate_record_fields({name: m.tree for name, m in self.modules.items()})
         self.resolved_aliases = propagate_attribute_aliases({name: m.tree for name, m in self.modules.items()})
         _canonical_calls([m.tree for m in self.modules.values()])
